@@ -10,7 +10,10 @@ All theorems are for *any* parameters `P` satisfying the decidable side-conditio
 (documented layouts, limits that fit the length fields, flag bits), any environment (zlib, cipher
 pair, varint functions), any packet, any chunking.  zlib and the cipher appear only through the
 hypothesis `e.Lawful` (decompress ∘ compress = id with a non-empty output, dec ∘ enc = id, length
-preserved).
+preserved).  That hypothesis has a model: `C01_toy_cipher_lawful` proves the toy cipher of the
+correspondence run lawful for every key, `C01_lawful_env` builds a fully lawful environment from it
+and a run-length codec, and `C01_roundtrip_model` / `C01_stream_model` are the round-trip theorems
+with every hypothesis about the environment discharged.
 -/
 import Fatchoy.Model.C01Params
 import Fatchoy.Lemmas.C01Demo
@@ -187,6 +190,72 @@ theorem C01_errno_body (P : Params) (hv : Valid01 P) (F : Fmt) (e : Env) (p : Pk
   simp only [hbody, bodyToBytes, Option.getD_some]
   split <;> simp [expectV1, expectV2, decodedBody, hne, h16, hflag, hvar]
 
+/-! ### the hypothesis `Env.Lawful` has a model -/
+
+/-- the toy cipher the driver and the harness run (`Codec.toy`, `hxcodec.Toy`) is lawful for every
+    key, the empty one included: decryption undoes encryption and vice versa, both preserve length -/
+theorem C01_toy_cipher_lawful (key bs : Bytes) :
+    toy key false (toy key true bs) = bs ∧ toy key true (toy key false bs) = bs ∧
+    (toy key true bs).length = bs.length ∧ (toy key false bs).length = bs.length :=
+  toy_lawful key bs
+
+/-- a fully lawful environment exists for every key and threshold: "zlib" = marker byte + a
+    run-length code (proved inverse: `rleDec_rleEnc`), cipher = the toy cipher, varints = Go's -/
+theorem C01_lawful_env (key : Bytes) (thr : Nat) : (modelEnv key thr).Lawful :=
+  modelEnv_lawful key thr
+
+/-- the round trip of both formats with no hypothesis left about the environment: any key, any
+    threshold, any well-formed packet whose body (doubled, the worst case of the run-length code)
+    leaves room for header and references, any chunking, anything following on the stream -/
+theorem C01_roundtrip_model (P : Params) (hv : Valid01 P) (F : Fmt) (hF : F = P.v1 ∨ F = P.v2) (key : Bytes)
+    (thr : Nat) (p : Pkt) (b : Bytes) (wf : WF F p) (hb : bodyToBytes P (modelEnv key thr) p.body = some b)
+    (hfit : F.headerSize + p.refs.length * 4 + 2 * b.length + 1 ≤ F.max) (tail : Bytes) (cs : Chunks)
+    (hcs : flat cs = (writePacket P F (modelEnv key thr) p).bytes ++ tail) :
+    (readPacket P F (modelEnv key thr) cs).res = .ok (expect P F (modelEnv key thr) p) ∧
+    flat (readPacket P F (modelEnv key thr) cs).rest = tail := by
+  have he : Encodable P (modelEnv key thr) p := by unfold Encodable; rw [hb]; rfl
+  rcases hF with h | h <;> subst h
+  · exact C01_v1_roundtrip P hv _ (modelEnv_lawful key thr) p wf he (modelEnv_fits hb hfit) tail cs hcs
+  · exact C01_v2_roundtrip P hv _ (modelEnv_lawful key thr) p wf he (modelEnv_fits hb hfit) tail cs hcs
+
+/-- the same for streams of frames -/
+theorem C01_stream_model (P : Params) (hv : Valid01 P) (F : Fmt) (hF : F = P.v1 ∨ F = P.v2) (key : Bytes) (thr : Nat)
+    (ps : List Pkt)
+    (hps : ∀ p ∈ ps, WF F p ∧ ∃ b, bodyToBytes P (modelEnv key thr) p.body = some b ∧
+      F.headerSize + p.refs.length * 4 + 2 * b.length + 1 ≤ F.max)
+    (tail : Bytes) (cs : Chunks) (hcs : flat cs = framesOf P F (modelEnv key thr) ps ++ tail) :
+    (readN P F (modelEnv key thr) ps.length cs).1 = ps.map (fun p => .ok (expect P F (modelEnv key thr) p)) ∧
+    flat (readN P F (modelEnv key thr) ps.length cs).2 = tail := by
+  refine C01_stream P hv F hF _ (modelEnv_lawful key thr) ps (fun p hp => ?_) tail cs hcs
+  obtain ⟨wf, b, hb, hfit⟩ := hps p hp
+  exact ⟨wf, by unfold Encodable; rw [hb]; rfl, modelEnv_fits hb hfit⟩
+
+/-! ### the length-prefixed pair `WriteLenData` / `ReadLenData` -/
+
+/-- the regenerated facts about the pair: 2-byte self-counting prefix, writer's limit, reader's guard -/
+theorem C01_valid_lendata : ValidLd params := by decide
+
+/-- `WriteLenData`: a payload of up to 65532 bytes goes out as a 16-bit big-endian length that counts
+    itself, then the data — two `Write` calls, `len(data) + 2` bytes — and anything longer is refused
+    without a byte.  The value returned on success is `len(data) + P.ldRetAdd`: the code's behaviour
+    as regenerated from its `return n + 4`, i.e. NOT the number of bytes written (that is `n + 2`).
+    The property's "reports the exact number of bytes it wrote" is about the two wire formats
+    (`C01_layout_v1/2`, `C01_accepts`); this theorem only records what the helper does. -/
+theorem C01_lendata_write (P : Params) (hv : ValidLd P) (data : Bytes) :
+    (data.length ≤ 65532 →
+      (writeLenData P data).writes = [bePut 2 (data.length + 2), data] ∧
+      (writeLenData P data).ret = .ok (data.length + P.ldRetAdd) ∧
+      (writeLenData P data).bytes.length = data.length + 2) ∧
+    (data.length > 65532 → (writeLenData P data).writes = [] ∧ (writeLenData P data).ret = .error .overflow) :=
+  writeLenData_spec P hv data
+
+/-- round trip of the pair for EVERY payload length 0..65532, any chunking, anything following on the
+    stream: `ReadLenData` returns the data and has consumed exactly the writer's bytes -/
+theorem C01_lendata_roundtrip (P : Params) (hv : ValidLd P) (data tail : Bytes) (h : data.length ≤ 65532)
+    (cs : Chunks) (hcs : flat cs = (writeLenData P data).bytes ++ tail) :
+    (readLenData P cs).res = .ok data ∧ flat (readLenData P cs).rest = tail :=
+  lendata_roundtrip P hv data tail h cs hcs
+
 /-! ### non-vacuity: the hypotheses are met by the regenerated parameters, a lawful environment that
 compresses and encrypts, and packets with references, flags and a body above the threshold -/
 
@@ -212,5 +281,28 @@ example : (readN params params.v1 demoEnv 2 [framesOf params params.v1 demoEnv [
       have : p = demoPkt := by simpa using hp
       subst this
       exact ⟨by decide, by decide, demo_fits _ (Or.inl rfl)⟩) [] _ (by simp [flat])).1
+
+
+/-- the model environment at work: threshold 4, so the 7-byte body is run-length coded and then
+    encrypted with the toy cipher under a two-byte key; V2 with references, bytes behind the frame,
+    the stream delivered in three chunks -/
+example (c1 c2 c3 : Bytes)
+    (h : c1 ++ c2 ++ c3 = (writePacket params params.v2 (modelEnv [0xa1, 0xb2] 4) demoPkt).bytes ++ [9, 9]) :
+    (readPacket params params.v2 (modelEnv [0xa1, 0xb2] 4) [c1, c2, c3]).res = .ok demoPkt :=
+  (C01_roundtrip_model params C01_valid params.v2 (Or.inr rfl) [0xa1, 0xb2] 4 demoPkt [1, 2, 3, 4, 5, 6, 7]
+    (by decide) rfl (by decide) [9, 9] [c1, c2, c3] (by simpa [flat] using h)).1
+
+/-- the marshalled form in that environment: both codec bits set, marker + run-length code, encrypted -/
+example : ∃ w, marshalBody params (modelEnv [0xa1, 0xb2] 4) demoPkt = .ok (w, { demoPkt with flag := 0x23#8 }) ∧
+    w.length = 15 := ⟨_, rfl, rfl⟩
+
+
+/-- the length-prefixed pair on an empty and on a 3-byte payload, delivered byte by byte -/
+example : (readLenData params [[0], [2], [7]]).res = .ok [] :=
+  (C01_lendata_roundtrip params C01_valid_lendata [] [7] (by decide) [[0], [2], [7]] (by decide)).1
+example : (readLenData params [[0], [5], [1], [2], [3]]).res = .ok [1, 2, 3] :=
+  (C01_lendata_roundtrip params C01_valid_lendata [1, 2, 3] [] (by decide) [[0], [5], [1], [2], [3]] (by decide)).1
+example : (writeLenData params (List.replicate 65533 0)).writes = [] :=
+  ((C01_lendata_write params C01_valid_lendata _).2 (by rw [List.length_replicate]; omega)).1
 
 end Fatchoy.C01
